@@ -13,18 +13,18 @@ REAL = ["train_* routines", "replay buffers", "losses/optimisers/target updates"
 STUB = ["environment (SimEnv)", "action-space sampler (recording subclass of the real space)", "networks are real tiny MLPs with probes"]
 ASSUMPTIONS = ["stored rows are read through the documented public `buffer` mapping and len()",
                "SimEnv ignores actions (bookkeeping properties do not depend on closed-loop dynamics)"]
-TIERS = {"quick": {"runs": 64}, "thorough": {"runs": 1500}}
+TIERS = {"quick": {"runs": 66}, "thorough": {"runs": 1500}}
 REQUIRED = ["stored_rows_checked", "stored_first_transition_after_reset", "acting_on_current_obs", "capacity_smaller_than_run", "one_step_episode"]
 REQUIRED_QUICK = REQUIRED
 SHRINK_LISTS = [["env", "script"]]
 SHRINK_INTS = []
 CLAUSES = ["C01.a", "C01.b", "C01.c", "C01.d"]
-ADAPTERS = ["ddpg", "td3", "td3_lap", "sac", "dqn", "nature_dqn", "ddqn", "ddqn_per"]
+ADAPTERS = ["ddpg", "td3", "td3_lap", "sac", "dqn", "nature_dqn", "ddqn", "ddqn_per", "td7", "mrq", "pets"]
 
 
 def make_plan(rng, tier, index):
     ad = ADAPTERS[index % len(ADAPTERS)]
-    plan = trainplan.base_plan(rng, PROPERTY, CLAUSES, ad)
+    plan = trainplan.base_plan(rng, PROPERTY, CLAUSES, ad, T=rng.choice([10, 14]) if ad == "pets" else None)
     if rng.random() < 0.6:
         trainplan.boundary_coincidences(rng, plan)
     return plan
